@@ -264,7 +264,7 @@ func (g *G) QueryOptions() *message.QueryOptions {
 	o.SkipMetadata = g.R.Bool()
 	if g.R.Bool() {
 		o.PageSize = g.I32()
-		if v.IsDse() {
+		if SpecIsDse(v) {
 			o.PageSizeInBytes = g.R.Bool()
 		}
 	}
@@ -278,14 +278,14 @@ func (g *G) QueryOptions() *message.QueryOptions {
 		t := g.I64()
 		o.DefaultTimestamp = &t
 	}
-	if g.R.Bool() && v.SupportsQueryFlag(primitive.QueryFlagWithKeyspace) {
+	if g.R.Bool() && SpecQueryKeyspace(v) {
 		o.Keyspace = g.Str()
 	}
-	if g.R.Bool() && v.SupportsQueryFlag(primitive.QueryFlagNowInSeconds) {
+	if g.R.Bool() && SpecNowInSeconds(v) {
 		n := g.I32()
 		o.NowInSeconds = &n
 	}
-	if g.R.Bool() && v.IsDse() {
+	if g.R.Bool() && SpecIsDse(v) {
 		o.ContinuousPagingOptions = &message.ContinuousPagingOptions{MaxPages: g.I32(), PagesPerSecond: g.I32(), NextPages: g.I32()}
 	}
 	return o
@@ -308,12 +308,31 @@ func (g *G) Columns() []*message.ColumnMetadata {
 		return []*message.ColumnMetadata{}
 	}
 	ks, tb := "\x00none", ""
-	if g.R.Bool() {
+	mode := g.R.Intn(6)
+	if mode < 3 {
 		ks, tb = g.Str(), g.Str()
 	}
 	cols := make([]*message.ColumnMetadata, n)
 	for i := range cols {
 		cols[i] = g.Column(ks, tb)
+	}
+	// near misses of "all columns in one table": the same table name in different keyspaces, the same keyspace with
+	// different tables, and a single odd column at the end
+	if n > 1 {
+		switch mode {
+		case 3:
+			t := g.NonEmptyStr()
+			for i, c := range cols {
+				c.Keyspace, c.Table = fmt.Sprintf("ks%d", i), t
+			}
+		case 4:
+			k := g.NonEmptyStr()
+			for i, c := range cols {
+				c.Keyspace, c.Table = k, fmt.Sprintf("t%d", i)
+			}
+		case 2:
+			cols[n-1].Keyspace = cols[n-1].Keyspace + "x"
+		}
 	}
 	return cols
 }
@@ -332,10 +351,10 @@ func (g *G) RowsMetadata(withCols bool) *message.RowsMetadata {
 	if g.R.Bool() {
 		m.PagingState = g.Bytes()
 	}
-	if g.R.Bool() && v.SupportsResultMetadataId() {
+	if g.R.Bool() && SpecResultMetadataId(v) {
 		m.NewResultMetadataId = g.Bytes()
 	}
-	if g.R.Bool() && v.IsDse() {
+	if g.R.Bool() && SpecIsDse(v) {
 		m.ContinuousPageNumber = g.I32()
 		m.LastContinuousPage = g.R.Bool()
 	}
@@ -404,13 +423,13 @@ func (g *G) Message(kind string) message.Message {
 		return &message.Query{Query: g.Str(), Options: g.QueryOptions()}
 	case "Prepare":
 		p := &message.Prepare{Query: g.NonEmptyStr()}
-		if v.SupportsPrepareFlags() && g.R.Bool() {
+		if SpecPrepareFlags(v) && g.R.Bool() {
 			p.Keyspace = g.Str()
 		}
 		return p
 	case "Execute":
 		e := &message.Execute{QueryId: g.NonEmptyBytes(), Options: g.QueryOptions()}
-		if v.SupportsResultMetadataId() {
+		if SpecResultMetadataId(v) {
 			e.ResultMetadataId = g.NonEmptyBytes()
 		}
 		return e
@@ -429,7 +448,7 @@ func (g *G) Message(kind string) message.Message {
 				b.Children[i] = c
 			}
 		}
-		if v.SupportsBatchQueryFlags() {
+		if SpecBatchFlags(v) {
 			if g.R.Bool() {
 				b.SerialConsistency = g.SerialConsistency()
 				if g.R.Bool() { // the codec does not insist on a serial level for batches
@@ -441,10 +460,10 @@ func (g *G) Message(kind string) message.Message {
 				t := g.I64()
 				b.DefaultTimestamp = &t
 			}
-			if g.R.Bool() && v.SupportsQueryFlag(primitive.QueryFlagWithKeyspace) {
+			if g.R.Bool() && SpecQueryKeyspace(v) {
 				b.Keyspace = g.Str()
 			}
-			if g.R.Bool() && v.SupportsQueryFlag(primitive.QueryFlagNowInSeconds) {
+			if g.R.Bool() && SpecNowInSeconds(v) {
 				n := g.I32()
 				b.NowInSeconds = &n
 			}
@@ -477,7 +496,7 @@ func (g *G) Message(kind string) message.Message {
 		}
 		return s
 	case "Revise":
-		if !v.IsDse() {
+		if !SpecIsDse(v) {
 			return nil
 		}
 		r := &message.Revise{RevisionType: primitive.DseRevisionTypeCancelContinuousPaging, TargetStreamId: g.I32()}
@@ -513,7 +532,10 @@ func (g *G) Message(kind string) message.Message {
 	case "WriteTimeout":
 		m := &message.WriteTimeout{ErrorMessage: g.Str(), Consistency: g.Consistency(), Received: g.I32(), BlockFor: g.I32(),
 			WriteType: writeTypes[g.R.Intn(len(writeTypes))]}
-		if v.SupportsWriteTimeoutContentions() && m.WriteType == primitive.WriteTypeCas {
+		if g.R.Bool() {
+			m.WriteType = primitive.WriteTypeCas
+		}
+		if SpecContentions(v) && m.WriteType == primitive.WriteTypeCas {
 			m.Contentions = uint16(g.R.U64())
 		}
 		return m
@@ -522,7 +544,7 @@ func (g *G) Message(kind string) message.Message {
 			return nil
 		}
 		m := &message.ReadFailure{ErrorMessage: g.Str(), Consistency: g.Consistency(), Received: g.I32(), BlockFor: g.I32(), DataPresent: g.R.Bool()}
-		if v.SupportsReadWriteFailureReasonMap() {
+		if SpecReasonMap(v) {
 			m.FailureReasons = g.ReasonMap()
 		} else {
 			m.NumFailures = g.I32()
@@ -534,7 +556,7 @@ func (g *G) Message(kind string) message.Message {
 		}
 		m := &message.WriteFailure{ErrorMessage: g.Str(), Consistency: g.Consistency(), Received: g.I32(), BlockFor: g.I32(),
 			WriteType: writeTypes[g.R.Intn(len(writeTypes))]}
-		if v.SupportsReadWriteFailureReasonMap() {
+		if SpecReasonMap(v) {
 			m.FailureReasons = g.ReasonMap()
 		} else {
 			m.NumFailures = g.I32()
@@ -569,7 +591,7 @@ func (g *G) Message(kind string) message.Message {
 		return &message.TopologyChangeEvent{ChangeType: ts[g.R.Intn(len(ts))], Address: g.Inet()}
 	case "PreparedResult":
 		p := &message.PreparedResult{PreparedQueryId: g.NonEmptyBytes()}
-		if v.SupportsResultMetadataId() {
+		if SpecResultMetadataId(v) {
 			p.ResultMetadataId = g.NonEmptyBytes()
 		}
 		if !g.chance(6) {
